@@ -8,6 +8,7 @@ import Driver.Pure
 import Driver.Prov
 import Driver.Height
 import Driver.Wire
+import Driver.Config
 
 open Driver
 
@@ -19,6 +20,8 @@ def evalLine (input : String) : Option String :=
   | "hw" :: _ => evalHeight ws
   | "wf" :: _ => evalWire ws
   | "wd" :: _ => evalWire ws
+  | "cf" :: _ => evalConfig ws
+  | "hx" :: _ => evalConfig ws
   | _ => evalPure ws
 
 partial def loop (h : IO.FS.Stream) (n d bad : Nat) (lineNo : Nat) : IO (Nat × Nat × Nat) := do
